@@ -69,3 +69,14 @@ Example C14_example :
   valid a = true /\ snapshot_json 0 [32]%N true a = snapshot_json 0 [32]%N true b /\
   valid [123; 34; 97; 34; 58; 125]%N = false.
 Proof. vm_compute. repeat split. Qed.
+
+(* non-vacuity: every theorem of this file that has hypotheses has a concrete, non-trivial instance meeting ALL of them
+   (lemmas <Theorem>_witness / <Theorem>_applied in Proofs/WitnessesP.v); a representative one is restated here *)
+From Snaps Require Import Proofs.WitnessesP.
+Example C14_witnesses :
+  wf_json w14_v /\ wf_json w14_vp /\ ws_layout w14_l1 /\ ws_layout w14_l2 /\
+  jperm w14_v w14_vp /\ distinct_keys w14_v = true /\ w14_v <> w14_vp /\
+  JsonSpec.render w14_l1 w14_v <> JsonSpec.render w14_l2 w14_v /\
+  valid w14_text = true /\ ws_bytes w14_tab /\ ws_bytes w14_two /\
+  snapshot_json w14_width w14_tab true w14_text <> w14_text.
+Proof. exact C14_witnesses_all. Qed.
